@@ -4,7 +4,7 @@
   schemas' check chains, multi-issue `Check` functions, and Transform / Pipe chains across types.
 
   op line:  c10u <pipeline tokens> | <input> @ <implementation observation>
-    pipeline := B <tag> <kind s|i|l|o> <ptr 0/1> <n> <check>*n | T <id> <k> <pipeline> | P <pipeline> <pipeline>
+    pipeline := B <tag> <kind s|i|l|o> <ptr 0/1> <n> <check>*n | T <id> <k> <pipeline> | P <pipeline> <pipeline> | PM <base> <pipeline>
     value    := <hex>|-  (string)  |  i<int>  |  l[<int>,…]  |  o<int>:<int>
     input    := <value>[*]
     check    := (string) min n | max n | len n | sw hex | ew hex | inc hex | lc | uc | re k | trim | lower | upper
@@ -118,6 +118,15 @@ def parsePipe : Nat → List String → Option (Pipe × List String)
     let (a, r) ← parsePipe fuel r
     let (b, r) ← parsePipe fuel r
     pure (.pipe a b, r)
+  | fuel + 1, "PM" :: r => do
+    -- a Pipe built with the first schema's own method (ZodIntegerTyped.Pipe): the target is handed the base
+    -- VALUE (`extractIntegerValue`), never the pointer a pointer-typed first schema returns
+    let (a, r) ← parsePipe fuel r
+    let (b, r) ← parsePipe fuel r
+    let a' := match a with
+      | .base tag _ k cs => PipelineK.base tag false k cs
+      | x => x
+    pure (.pipe a' b, r)
   | _, _ => none
 
 inductive OEv where
